@@ -73,6 +73,37 @@ pub fn with_cond(base: &Engine, acts: &[Act]) -> Engine {
     }
     e
 }
+/// The same settings as `e`, but arrived at the other way a caller can fill an existing object: a scratch engine on the
+/// same voices, with every setting at some other value, overwritten through `Clone::clone_from` - of the `Condition`
+/// (`whole` false) or of the whole `Engine` (`whole` true, the scratch then also comes from another voice).
+pub fn via_clone_from(e: &Engine, whole: bool) -> Engine {
+    let ns = e.voices.global_metadata().num_streams;
+    let mut scratch = if whole {
+        // another voice altogether (LSP, log gain, other rate): nothing of it may survive
+        crate::common::engine_from_bytes(&crate::gen::voice::GenCfg { ns: 2, stage: 2, log_gain: true, order: 5, rate: 8000, fperiod: 40, ..crate::gen::voice::GenCfg::default() }.bytes()).expect("generated voice")
+    } else {
+        e.clone()
+    };
+    let c = &mut scratch.condition;
+    c.set_sampling_frequency(11025);
+    c.set_fperiod(33);
+    c.set_volume(13.5);
+    c.set_speed(2.25);
+    c.set_phoneme_alignment_flag(!e.condition.get_phoneme_alignment_flag());
+    c.set_alpha(0.11);
+    c.set_beta(0.77);
+    c.set_additional_half_tone(-7.5);
+    for i in 0..if whole { 2 } else { ns } {
+        c.set_msd_threshold(i, 0.91);
+        c.set_gv_weight(i, 0.07);
+    }
+    if whole {
+        scratch.clone_from(e);
+    } else {
+        scratch.condition.clone_from(&e.condition);
+    }
+    scratch
+}
 pub fn acts_json(acts: &[Act]) -> serde_json::Value {
     serde_json::Value::Array(acts.iter().map(|a| serde_json::json!(format!("{:?}", a))).collect())
 }
